@@ -37,9 +37,10 @@ CONFIG_GETTERS = ["get_semantic_constraints", "get_preset_constraints", "get_sem
 class AtomicFlow(Forward):
     """state: frozenset of descriptions of module-state writes that may already have happened"""
 
-    def __init__(self, ctx, eff, f, rep, depth=0, seen=None):
+    def __init__(self, ctx, eff, f, rep, depth=0, seen=None, rule="G3"):
         super().__init__(f.node)
         self.ctx, self.eff, self.f, self.rep = ctx, eff, f, rep
+        self.rule = rule
         self.depth = depth
         self.sites = {id(s.node): s for s in ctx.cg.sites(f)}
         self.writes = {}
@@ -104,7 +105,7 @@ class AtomicFlow(Forward):
 
     def _check(self, node, state, why):
         ok = not state
-        self.rep.ob("G3", ok, node, self.f, how="no module-state write can precede this raise point (%s)" % why,
+        self.rep.ob(self.rule, ok, node, self.f, how="no module-state write can precede this raise point (%s)" % why,
                     witness=None if ok else "raise point (%s) reachable after write(s): %s" % (why, "; ".join(sorted(state))),
                     nontrivial=True)
 
@@ -112,6 +113,49 @@ class AtomicFlow(Forward):
         if kind == "raise":
             self.raise_points += 1
             self._check(node, state, "explicit raise")
+
+
+def check_rejects_invalid(ctx, rep, setter):
+    """G3b: the setter has no normal-return path that is compatible with an invalid argument.  The abstract interpreter
+    explores the setter with an unknown argument; each path that returns normally must carry path facts that contradict
+    (1) 'a dict without the "?" key', (2) 'neither a str nor a dict', (3) 'a str that is not a preset name' -- otherwise
+    some such input is accepted silently (e.g. an argument replaced by a default when it is falsy: {} , "" , 0)."""
+    from sa.sym import Engine, Hooks, Unk
+    if not setter.posparams:
+        raise AnalysisError("setter has no parameter")
+    arg = Unk(("arg",))
+    akey = ("unk", ("arg",))
+    fr = Engine(ctx, Hooks()).run_function(setter, {setter.posparams[0]: arg})
+    if not fr.returns:
+        raise AnalysisError("setter has no normal return path")
+
+    def val(st, pred):
+        for k, v in st.atoms.items():
+            if pred(k):
+                return v
+        return None
+    is_str = lambda k: k[0] == "isinstance" and k[1] == akey and "str" in k[2]
+    is_dict = lambda k: k[0] == "isinstance" and k[1] == akey and "dict" in k[2]
+    has_q = lambda k: k[0] == "in" and k[1] == ("con", repr("?")) and k[2] == akey
+    in_presets = lambda k: k[0] == "in" and k[1] == akey and isinstance(k[2], tuple) and k[2][0] == "folded"
+    seen_type_tests = any(val(s_, is_str) is not None or val(s_, is_dict) is not None for s_, _ in fr.returns)
+    if not seen_type_tests:
+        rep.note("the setter does not classify its argument with isinstance(): completeness of the rejection not decided")
+        return
+    scen = {
+        "a dict without the '?' key": lambda s_: val(s_, is_dict) is False or val(s_, has_q) is True or val(s_, is_str) is True,
+        "an argument that is neither a str nor a dict": lambda s_: val(s_, is_str) is True or val(s_, is_dict) is True,
+        "a str that is not a preset name": lambda s_: val(s_, is_str) is False or val(s_, in_presets) is True,
+    }
+    rets = [r for r in own_nodes(setter.node) if isinstance(r, ast.Return)]
+    for what, contradicted in scen.items():
+        bad = [s_ for s_, _v in fr.returns if not contradicted(s_)]
+        w = None
+        if bad:
+            facts = sorted("%s is %s" % (str(k)[:60], v) for k, v in bad[0].atoms.items() if "arg" in repr(k))
+            w = "the setter can return normally for %s (path facts: %s): the invalid input is accepted instead of raising ValueError" % (what, facts or "none")
+        rep.ob("G3", not bad, setter.node, setter, construct="rejection of %s" % what, how="no normal-return path is compatible with it (%d path(s))" % len(fr.returns),
+               witness=w, nontrivial=True, key="rejects/%s" % what.split()[1])
 
 
 def run(ctx, rep):
@@ -224,6 +268,9 @@ def run(ctx, rep):
     af.run(frozenset())
     if af.raise_points < 3:
         raise AnalysisError("setter has %d raise points; validation anchors lost" % af.raise_points)
+
+    # ---- G3 (completeness of the rejection): every invalid input is rejected on every path
+    check_rejects_invalid(ctx, rep, setter)
 
     # ---- G6
     plain, selfkeyed = memo_readers(ctx, eff, table_vars)
